@@ -12,6 +12,8 @@ Line protocol of ssv_c19 (one answer line per input line):
   job <i> <o>                -> <sel>              the job of client i finishes (selection as published now)
   finish                     -> <sel>              wg.Wait() returned: count++, scan, publish
   sel                        -> <sel>
+  tround <c> <s_0> ... <s_{n-1}> -> <sel> <start_0,...>   one whole round on the clock with c workers from t0 = 0;
+                                 s = f (never answers) | <d> (usable answer after d ns) | x<d> (unusable answer after d ns)
 -/
 
 structure DState where
@@ -28,6 +30,18 @@ def parseOutcomes : List String → Option (List Outcome)
   | s :: rest => do
     let o ← parseOutcome s
     let r ← parseOutcomes rest
+    pure (o :: r)
+
+def parseScript (s : String) : Option Script :=
+  if s == "f" then some { answerAfter := none, ok := false }
+  else if s.startsWith "x" then (s.drop 1).toNat?.map (fun d => { answerAfter := some d, ok := false })
+  else s.toNat?.map (fun d => { answerAfter := some d, ok := true })
+
+def parseScripts : List String → Option (List Script)
+  | [] => some []
+  | s :: rest => do
+    let o ← parseScript s
+    let r ← parseScripts rest
     pure (o :: r)
 
 def parsePolicy (s : String) : Option Policy :=
@@ -62,6 +76,13 @@ def stepC19 (d : DState) (line : String) : DState × String :=
   | ["finish"] =>
       let st := finish d.pol d.timeout d.st
       ({ d with st := st }, toString st.sel)
+  | "tround" :: c :: ss => match c.toNat?, parseScripts ss with
+      | some k, some l => if l.length ≠ d.st.rings.length then (d, "bad-op") else
+          let js := dispatch d.pol d.timeout 0 l (List.replicate k 0)
+          if js.length ≠ l.length then (d, "deadlock") else
+          let st := round d.pol d.timeout d.st (js.map (·.outcome))
+          ({ d with st := st }, s!"{st.sel} {",".intercalate (js.map (fun j => toString j.start))}")
+      | _, _ => (d, "bad-op")
   | ["sel"] => (d, toString d.st.sel)
   | ["state"] => (d, s!"{d.st.count} {d.st.sel} {d.st.rings}")
   | _ => (d, "bad-op")
